@@ -16,6 +16,27 @@ TRUSTED_BASE = [
 ]
 
 
+_POOL = None
+
+
+def _impl_one(t):
+    case, fmt, ot, names = t
+    return ALGS[case["alg"]].call_impl(case, fmt, ot, names)
+
+
+def impl_map(tasks, serial_below=200):
+    """run the real prtpy on every task (case, fmt, outtype, names); worker processes are forked from this
+    interpreter, so they run the same /repo working tree"""
+    global _POOL
+    tasks = list(tasks)
+    if len(tasks) < serial_below or os.environ.get("VERIF_SERIAL"):
+        return [_impl_one(t) for t in tasks]
+    if _POOL is None:
+        import multiprocessing as mp
+        _POOL = mp.get_context("fork").Pool(min(16, os.cpu_count() or 1))
+    return _POOL.map(_impl_one, tasks, chunksize=max(1, min(64, len(tasks) // 64)))
+
+
 class Check:
     def __init__(self, pid, tier=None, seed=None, level="proof"):
         self.pid = pid
@@ -93,6 +114,8 @@ class Check:
 
     def fail(self, alg, case, fmt, outtype, kind, observed, expected, extra=None):
         """the implementation fails the property on this case (already judged)"""
+        if alg == "bin_completion" and fmt in ("dict_str", "dict_int", "names_valueof"):
+            kind = "names-not-values:" + kind
         k = self.match_known(alg, case, fmt, kind)
         if k is not None:
             self.known_hits.setdefault(k["id"], {"finding": k, "count": 0, "first": {"case": case, "fmt": fmt}})
@@ -121,9 +144,10 @@ class Check:
                 lines.setdefault(req, len(lines))
                 plan.append((case, fmt, ot, names, ids, req))
         answers = model_query(list(lines))
+        gots = impl_map([(case, fmt, ot, names) for case, fmt, ot, names, ids, req in plan])
         pending = []      # (line, pred, context)
         counted = set()
-        for case, fmt, ot, names, ids, req in plan:
+        for (case, fmt, ot, names, ids, req), got in zip(plan, gots):
             alg = ALGS[case["alg"]]
             ans = answers[lines[req]]
             if "bad" in ans:
@@ -133,7 +157,6 @@ class Check:
                 self._count(stream, case, ans)
                 self.corr_cases += 1
             by_id = {i: nm for i, nm in zip(ids, names)}
-            got = alg.call_impl(case, fmt, ot, names)
             self.evaluations += 1
             self.stats[stream][f"fmt:{fmt}"] += 1
             self.stats[stream][f"out:{ot}"] += 1
